@@ -49,6 +49,8 @@ var (
 	vownerAll     = []string{"A", "B", "C", "D", "E", "K", "MR", "MU", "MOD", "FEE"}
 	vownerIDs     = []string{"s1", "s2", "s3", "s4"}
 	vownerMTs     = []string{"write", "delete", "updvo", "migrate"}
+	// ordinary (non-scope) coin denoms: the model's `ordinaryDenoms`
+	vownerCoins   = map[string]string{"$c": "vowncoinc", "$d": "vowncoind", "$nhash": "vownhash"}
 	vownerStatus  = map[string]markertypes.MarkerStatus{
 		"proposed": markertypes.StatusProposed, "finalized": markertypes.StatusFinalized, "active": markertypes.StatusActive,
 		"cancelled": markertypes.StatusCancelled, "destroyed": markertypes.StatusDestroyed,
@@ -398,6 +400,24 @@ func (e *vownerEnv) dump() string {
 	return strings.Join(parts, " ") + " grants=" + JoinOr(gs, ",") + " markers=" + JoinOr(ms, ",")
 }
 
+// coinsOf: one unit of each named denom (scope ids map to their scope denom, `$…` names to ordinary coins), sorted.
+func (e *vownerEnv) coinsOf(names []string) (sdk.Coins, bool) {
+	var coins sdk.Coins
+	for _, n := range names {
+		if d, ok := vownerCoins[n]; ok {
+			coins = append(coins, sdk.NewInt64Coin(d, 1))
+			continue
+		}
+		id, ok := e.scope[n]
+		if !ok {
+			return nil, false
+		}
+		coins = append(coins, id.Coin())
+	}
+	sort.Slice(coins, func(i, j int) bool { return coins[i].Denom < coins[j].Denom })
+	return coins, true
+}
+
 // exec runs one op line on the real code and returns the canonical output.
 func (e *vownerEnv) exec(op string) string {
 	ws := strings.Fields(op)
@@ -417,6 +437,79 @@ func (e *vownerEnv) exec(op string) string {
 			return "err:denom"
 		}
 		return "ok"
+	case "bal": // bank balance of any denom (pure)
+		n := kvArg2(ws, "denom")
+		d, ok := vownerCoins[n]
+		if !ok {
+			id, ok2 := e.scope[n]
+			if !ok2 {
+				return "bad-op"
+			}
+			d = id.Denom()
+		}
+		a, ok := e.addr[kvArg2(ws, "addr")]
+		if !ok {
+			return "bad-op"
+		}
+		return "ok " + e.app.BankKeeper.GetBalance(e.ctx, a, d).Amount.String()
+	case "fund": // ordinary coins arriving at an (ordinary) account
+		d, ok := vownerCoins[kvArg2(ws, "denom")]
+		a, ok2 := e.addr[kvArg2(ws, "addr")]
+		amt, ok3 := sdkmath.NewIntFromString(kvArg2(ws, "amount"))
+		if !ok2 {
+			return "bad-op"
+		}
+		if !ok || !ok3 || !amt.IsPositive() {
+			return "err:invalid"
+		}
+		coins := sdk.NewCoins(sdk.NewCoin(d, amt))
+		err, pan := Try(e.ctx, func(ctx sdk.Context) error {
+			if err := e.app.BankKeeper.MintCoins(ctx, "mint", coins); err != nil {
+				return err
+			}
+			return e.app.BankKeeper.SendCoinsFromModuleToAccount(ctx, "mint", a, coins)
+		})
+		if pan != "" {
+			return "panic:" + pan
+		}
+		return vownerClass(err)
+	case "msend": // bank MsgMultiSend: one input (the signer), one unit of each named denom per output
+		from := e.bech(kvArg2(ws, "from"))
+		var outs []banktypes.Output
+		var total sdk.Coins
+		bad := false
+		if o := kvArg2(ws, "outs"); o != "-" && o != "" {
+			for _, w := range strings.Split(o, ",") {
+				parts := strings.SplitN(w, ":", 2)
+				if len(parts) != 2 {
+					return "bad-op"
+				}
+				coins, ok := e.coinsOf(vownerSplit(parts[1]))
+				if !ok {
+					return "bad-op"
+				}
+				if len(coins) == 0 || !coins.IsValid() {
+					bad = true
+				}
+				outs = append(outs, banktypes.Output{Address: e.bech(parts[0]), Coins: coins})
+				for _, c := range coins {
+					total = total.Add(c)
+				}
+			}
+		}
+		if bad { // Output.ValidateBasic: invalid coins (cannot even be summed into an input)
+			return "err:invalid"
+		}
+		msg := &banktypes.MsgMultiSend{Inputs: []banktypes.Input{{Address: from, Coins: total}}, Outputs: outs}
+		return e.run(msg, []string{from}, func(ctx sdk.Context) error { _, err := e.bank.MultiSend(ctx, msg); return err })
+	case "mtransfer": // marker MsgTransfer of a scope token
+		id, ok := e.scope[kvArg2(ws, "id")]
+		if !ok {
+			return "bad-op"
+		}
+		admin := e.bech(kvArg2(ws, "admin"))
+		msg := &markertypes.MsgTransferRequest{Amount: id.Coin(), Administrator: admin, FromAddress: e.bech(kvArg2(ws, "from")), ToAddress: e.bech(kvArg2(ws, "to"))}
+		return e.run(msg, []string{admin}, func(ctx sdk.Context) error { _, err := e.mk.Transfer(ctx, msg); return err })
 	case "write":
 		id, ok := e.scope[kvArg2(ws, "id")]
 		if !ok {
@@ -456,15 +549,10 @@ func (e *vownerEnv) exec(op string) string {
 		msg := &mdtypes.MsgMigrateValueOwnerRequest{Existing: e.bech(kvArg2(ws, "from")), Proposed: e.bech(kvArg2(ws, "to")), Signers: signers}
 		return e.run(msg, signers, func(ctx sdk.Context) error { _, err := e.md.MigrateValueOwner(ctx, msg); return err })
 	case "send":
-		var coins sdk.Coins
-		for _, n := range vownerSplit(kvArg2(ws, "ids")) {
-			id, ok := e.scope[n]
-			if !ok {
-				return "bad-op"
-			}
-			coins = append(coins, id.Coin())
+		coins, ok := e.coinsOf(vownerSplit(kvArg2(ws, "ids")))
+		if !ok {
+			return "bad-op"
 		}
-		sort.Slice(coins, func(i, j int) bool { return coins[i].Denom < coins[j].Denom })
 		from := e.bech(kvArg2(ws, "from"))
 		msg := &banktypes.MsgSend{FromAddress: from, ToAddress: e.bech(kvArg2(ws, "to")), Amount: coins}
 		return e.run(msg, []string{from}, func(ctx sdk.Context) error { _, err := e.bank.Send(ctx, msg); return err })
@@ -1346,7 +1434,28 @@ func driveVowner(t *testing.T, rng *RNG, n int, out *Out) {
 					ids = nil
 				}
 				signers = from
-				r = emit(fmt.Sprintf("send from=%s to=%s ids=%s", from, vownerPickTarget(rng, anyHolder), JoinOr(ids, "|")))
+				switch {
+				case len(ids) > 0 && rng.Chance(30): // the same through bank MsgMultiSend, the tokens spread over one or two outputs
+					outs := vownerPickTarget(rng, anyHolder) + ":" + JoinOr(ids, "|")
+					if len(ids) >= 2 && rng.Chance(60) {
+						outs = vownerPickTarget(rng, anyHolder) + ":" + ids[0] + "," + vownerPickTarget(rng, anyHolder) + ":" + JoinOr(ids[1:], "|")
+					} else if rng.Chance(15) { // an ordinary coin rides along (the sender may or may not have one)
+						outs += "," + vownerPickTarget(rng, anyHolder) + ":$c"
+					}
+					out.Count("op:msend")
+					r = emit(fmt.Sprintf("msend from=%s outs=%s", from, outs))
+				case len(ids) > 0 && rng.Chance(6): // marker MsgTransfer cannot carry a scope token
+					out.Count("op:mtransfer")
+					r = emit(fmt.Sprintf("mtransfer admin=%s from=%s to=%s id=%s", Pick(rng, people), from, vownerPickTarget(rng, anyHolder), ids[0]))
+				case rng.Chance(8): // ordinary coins arrive, and may ride along with the token
+					out.Count("op:fund")
+					emit(fmt.Sprintf("fund addr=%s denom=$c amount=%d", Pick(rng, vownerAccts), 1+rng.Intn(5)))
+					emit("dump")
+					r = emit(fmt.Sprintf("send from=%s to=%s ids=%s", from, vownerPickTarget(rng, anyHolder), JoinOr(append(append([]string{}, ids...), "$c"), "|")))
+					emit("bal addr=" + from + " denom=$c")
+				default:
+					r = emit(fmt.Sprintf("send from=%s to=%s ids=%s", from, vownerPickTarget(rng, anyHolder), JoinOr(ids, "|")))
+				}
 			case k < 88: // authz grant / revoke
 				kind = "grant"
 				granter := Pick(rng, people)
